@@ -407,7 +407,7 @@ def run_harness(h, src, logdir):
             # without --slice-formula the instance is large (27 M variables / 24 GB for a 4.5 GB harness; kani-driver 23 GB to parse a trace):
             # the playback pass may use most of the machine (62 GB, no swap)
             # ... and slow (--trace, no formula slicing: measured 10-12x the time of pass 1): its own, longer time limit
-            rc2, out2, to2, wall2 = run_cmd(cmd2, src, max(3600, 4 * h["timeout"]), max(44, h.get("playback_mem_gb", 0)), logfile=logfile + ".playback")
+            rc2, out2, to2, wall2 = run_cmd(cmd2, src, min(3600, max(1800, 2 * h["timeout"])), max(44, h.get("playback_mem_gb", 0)), logfile=logfile + ".playback")
             wall += wall2
             pb = parse_kani_output(out2)["playback"] if not to2 else []
         else:
